@@ -878,6 +878,14 @@ class Sim:
             self.mark_sharers(i, op, None)
             return
         if res[0] != "ok":
+            # update == fit on old + new: where a fresh object can be fitted on the
+            # combined data, update must not fail
+            if was_comparable and res[0] == "exc" and op == "update":
+                tw = twin_outcome(cur, cl.chunks() + [arg], None, None)
+                if tw["status"] == "done":
+                    self.stats["comparisons"] += 1
+                    ev["cmp"] = "NE"
+                    self.violate("update_fails_where_fit_succeeds", cl, op, i_step, fkind, {"history": describe(res), "fresh": "fit on the combined data succeeds", "spec": cur})
             cl.lin = UNSPEC
             self.probe("failed_update")
             self.mark_sharers(i, op, None)
